@@ -71,6 +71,16 @@ CHECKS = [
          design_ref="§3 C10",
          note='Trusted: TLC, the projection (real store -> abstract state), the in-memory object store (checked against ObjectStore.tla), harness-chosen KSUIDs. Bounds: 3 prefix-related repos, 7 paths incl. generated decoys, 4 contents, <= 5-7 bundles, histories of 12-14 steps (random walks); 1000/1001-file bundles in a separate small run',
          technique='TLA+ model checking (TLC) of Meta.tla + replay of TLC-generated API behaviours on pkg/core with state projection compare'),
+    dict(id="C11",
+         text="Merge.tla: declarative MergeOp (latest write wins, losing versions with different content kept under the uploading split, forbid fails iff two splits differ, ignore adds nothing) and the collect-then-resolve algorithm, checked by TLC for every enumerated input and every arrival order; each case is built with real CreateSplit/Split.Upload, re-timed, committed with the arrival order of the split file lists forced, and the committed entries compared with MergeOp",
+         design_ref="§3 C11",
+         note="Trusted: TLC, refinement of abstract contents, harness re-timing of stored file lists. Bounds: quick = exhaustive for <= 2 versions over 3 splits x 2 paths x 2 contents x 4 modes x all orders + 500 sampled up to 5 versions/3 contents; thorough = exhaustive <= 3 versions (14 736 cases) + 3 000 sampled over 8 splits, 4 paths, 3 contents",
+         technique="TLA+ model checking (TLC) + replay of TLC-enumerated merge cases on Diamond.Commit with forced arrival order"),
+    dict(id="C12",
+         text="Diamond.tla (protocol at store-call granularity: split runs incl. reruns, committers with retry, canceler, crash anywhere) model-checked exhaustively; the real operations are driven by a gate scheduler through window and random interleavings of their store calls, crashes at every write and retries, and every recorded trace is validated event by event by DiamondTrace.tla (read results = spec state, create-if-absent discipline, operation results, content of committed bundles)",
+         design_ref="§3 C12",
+         note="Trusted: TLC, the event classifier (store key -> marker kind), gate scheduler. Known finding: AtMostOneBundle is violated by the protocol itself for concurrent commits / crash before diamond-done + retry (shown on the model and reproduced on the code); all other properties hold. Bounds: quick = 12-runner-free small model (84 k states) + 205 scenarios; thorough = 12.7 M-state model, repaired protocol checked, ~1 900 scenarios",
+         technique="TLA+ model checking (TLC) of the protocol + TLC trace validation of gate-scheduled executions of the real code"),
     dict(id="C16",
          text="ObjectStore.tla is model-checked exhaustively over a hostile key set (pagination = one-page listing, sorted, "
               "duplicate free, exclusive winner); TLC-generated operation histories are replayed on the real localfs store with "
